@@ -11,6 +11,9 @@
 (*                  tree, which then executes the `alt` body of its call node *)
 (*   op = "create": (top level only) contract creation whose constructor is   *)
 (*                  `body`; the created contract N<id> gets no runtime code    *)
+(*                  unless rt (then: the fixed code an "ncall" enters)          *)
+(*   op = "ncall":  call into N<to>, created earlier in this transaction: its  *)
+(*                  code does a CREATE and stops, or reverts (rev)             *)
 (*   op = "selfdestruct": SELFDESTRUCT with beneficiary `to`                  *)
 (*   op = "sstore" | "revert" | "invalid" | "stop"                          *)
 (*   mode = "catch" (ignore the callee's failure) | "bubble" (revert too)   *)
@@ -210,9 +213,15 @@ IdealOp(r, self, o, g, obs, operOf, topOk, root) ==
                     body == IF o.op = "recall" THEN AltInOp(root, tgt) ELSE o.body
                     s0 == IF o.op = "create" /\ self # g THEN [s EXCEPT !.nonce[self] = BigAdd(@, "1")] ELSE s
                     s1 == [s0 EXCEPT !.bank = IF tgt \in Accts(s) THEN Add(Sub(@, self, o.value), tgt, o.value) ELSE Sub(@, self, o.value)]
-                    s2 == IF o.op = "create" THEN [s1 EXCEPT !.nonce[tgt] = "1"] ELSE s1
+                    \* (o.rt: the constructor returns runtime code - see "ncall")
+                    s2 == IF o.op = "create" THEN [s1 EXCEPT !.nonce[tgt] = "1", !.code[tgt] = IF o.rt THEN "yes" ELSE @] ELSE s1
                 IN IF body # <<>> THEN IdealBody([r EXCEPT !.st = s2], tgt, body, g, obs, operOf, 1, root)
                    ELSE [r EXCEPT !.st = s2]
+      \* a call into the contract N<id> that an earlier "create" (with rt) of this transaction deployed: its code
+      \* creates a contract - the nonce of N<id> moves - and then stops, or reverts (o.rev): a reverted call leaves
+      \* the nonce where it was.  An address at which no code was deployed accepts the call and does nothing.
+      [] o.op = "ncall" ->
+           IF ok /\ ~o.rev /\ s.code[o.to] = "yes" THEN [r EXCEPT !.st.nonce[o.to] = BigAdd(@, "1")] ELSE r
       [] o.op = "sstore" ->
            [r EXCEPT !.st.storage[self] = [@ EXCEPT !["s" \o ToString(o.id)] = 7]]
       \* LOG1 with the op id as topic: the logs of the transaction, in emission order
@@ -231,7 +240,7 @@ RECURSIVE ExpectFlags(_, _, _, _, _, _)
 ExpectFlags(st, self, body, obs, i, root) ==
     IF i > Len(body) THEN st
     ELSE LET o == body[i]
-             st1 == IF o.op \in {"pc", "call", "recall", "create"}
+             st1 == IF o.op \in {"pc", "call", "recall", "create", "ncall"}
                     THEN [st EXCEPT ![self] = [@ EXCEPT !["s" \o ToString(o.id)] = Flag(obs, self, o)]] ELSE st
              st2 == IF o.op \in {"call", "create"} /\ o.body # <<>> /\ Flag(obs, self, o) = 2
                     THEN ExpectFlags(st1, ContractOf(o), o.body, obs, 1, root)
@@ -477,9 +486,16 @@ MOp(ms, self, o, g, operOf, root) ==
               ELSE LET m1a == IF BigIsZero(o.value) THEN m0 ELSE Touch(Touch(m0, self, BigNeg(o.value)), tgt, o.value)
                        \* the new account gets nonce 1 inside the snapshot of the creation (EIP-161)
                        m1 == IF o.op = "create" THEN NTouch(m1a, tgt, "1") ELSE m1a
-                   IN IF body = <<>> THEN [ms |-> m1, ok |-> TRUE]
+                       \* runtime code returned by the constructor is set on the new object when the constructor ends
+                       coded(m) == IF o.op = "create" /\ o.rt THEN [m EXCEPT !.s.code[tgt] = "yes"] ELSE m
+                   IN IF body = <<>> THEN [ms |-> coded(m1), ok |-> TRUE]
                       ELSE LET r == MBody(m1, tgt, body, g, operOf, 1, root) IN
-                           IF r.ok THEN r ELSE [ms |-> RolledBack(m0, r), ok |-> FALSE]
+                           IF r.ok THEN [r EXCEPT !.ms = coded(@)] ELSE [ms |-> RolledBack(m0, r), ok |-> FALSE]
+      [] o.op = "ncall" ->
+           LET m0 == ForceLoad(Load(ms, self), o.to) IN
+           IF m0.s.code[o.to] # "yes" THEN [ms |-> Load(Load(ms, self), o.to), ok |-> TRUE]
+           ELSE IF o.rev THEN [ms |-> Load(Load(ms, self), o.to), ok |-> FALSE]     \* the journal takes the nonce back
+           ELSE [ms |-> NTouch(m0, o.to, BigAdd(m0.ncache[o.to], "1")), ok |-> TRUE]
       [] o.op = "log" -> [ms |-> [ms EXCEPT !.s.logs = Append(@, o.id)], ok |-> TRUE]
       [] o.op = "sstore" -> [ms |-> [Load(ms, self) EXCEPT !.s.storage[self] = [@ EXCEPT !["s" \o ToString(o.id)] = 7], !.dirty = @ \cup {self}], ok |-> TRUE]
       [] o.op = "selfdestruct" ->
@@ -497,11 +513,11 @@ MBody(ms, self, body, g, operOf, i, root) ==
     ELSE LET o == body[i]
              r == MOp(ms, self, o, g, operOf, root)
              \* the executing contract records success + 1 for its calls (in the recorder contract)
-             rec == IF o.op \in {"pc", "call", "recall", "create"} /\ self # g
+             rec == IF o.op \in {"pc", "call", "recall", "create", "ncall"} /\ self # g
                     THEN [r.ms EXCEPT !.s.storage[self] = [@ EXCEPT !["s" \o ToString(o.id)] = IF r.ok THEN 2 ELSE 1]] ELSE r.ms
          IN IF o.op \in {"revert", "invalid"} THEN [ms |-> ms, ok |-> FALSE]
             ELSE IF o.op = "selfdestruct" THEN r
-            ELSE IF ~r.ok /\ o.op \in {"pc", "call", "recall", "create"} /\ o.mode = "bubble" /\ self # g THEN [ms |-> r.ms, ok |-> FALSE]
+            ELSE IF ~r.ok /\ o.op \in {"pc", "call", "recall", "create", "ncall"} /\ o.mode = "bubble" /\ self # g THEN [ms |-> r.ms, ok |-> FALSE]
             ELSE MBody(rec, self, body, g, operOf, i + 1, root)
 
 \* final commit
